@@ -896,6 +896,19 @@ func ruleC20_6(c *Ctx) {
 		k, ok := v.(*ssa.Call)
 		return ok && calleeName(k) == "os.ReadFile" && org(k.Call.Args[0]) == c.fv("intermediate-certs", "verifyCmd")+"[*]"
 	}, true)
+	if !okInter && len(a) >= 6 {
+		// a list filled element by element (append or indexed store): every element is such a read
+		srcs := appendedSources(resolve(a[5], call))
+		okInter = len(srcs) > 0
+		for _, sv := range srcs {
+			if !derives(sv, func(v ssa.Value) bool {
+				k, ok := v.(*ssa.Call)
+				return ok && calleeName(k) == "os.ReadFile" && org(k.Call.Args[0]) == c.fv("intermediate-certs", "verifyCmd")+"[*]"
+			}, true) {
+				okInter = false
+			}
+		}
+	}
 	c.check(okInter || len(a) < 6, R, fn, "intermediates = contents of the --intermediate-certs files", call.Pos(), "os.ReadFile(intermediatePaths[i])", "intermediate PEMs are "+short(org(a[5])))
 	c.check(org(a[len(a)-1]) == c.fv("normalize-line-endings", "verifyCmd"), R, fn, "line normalisation flag passed on", call.Pos(), "lineNormalization", "last argument is "+org(a[len(a)-1]))
 	okErr := false
